@@ -5,7 +5,7 @@
    the HarperIgnoreLint command).  Code as of cfbe845.  No proofs here.
    Specification side (independent of the state machine): what a history leaves behind (`doc_after`, ...)
    and the single-shot answer `code_actions_of` for a document. *)
-Require Import Base Suggestion PosConv Tables_posconvcasts.
+Require Import Base Suggestion PosConv Tables_posconvcasts C08TokenAt.
 
 (* ------------------------------------------------------------------------------------------ *)
 (*  (1) `lines as u32`, `cols as u32`                                                           *)
@@ -287,10 +287,10 @@ Arguments OCodeActions {doc cfg}.
 (*  driver entry point: a history over a table of documents                                     *)
 (* ------------------------------------------------------------------------------------------ *)
 (* A document of the driver: (id, source text, the lints the reference linter reports for it together with
-   the context hash of each, the table of get_token_at_char_index restricted to Url tokens).  The linter of the driver looks the document's
-   lints up in the document itself; an ignore operation carries the hash the harness computed for
-   (lint, current document). *)
-Record ddoc := mkddoc { dd_id : nat; dd_text : text; dd_lints : list (dlint * N); dd_urls : list (nat * span) }.
+   the context hash of each, the document's TOKEN VECTOR as the parser left it - span and `kind == Url` of every
+   token, in order).  The linter of the driver looks the document's lints up in the document itself; an ignore
+   operation carries the hash the harness computed for (lint, current document). *)
+Record ddoc := mkddoc { dd_id : nat; dd_text : text; dd_lints : list (dlint * N); dd_tokens : list dtoken }.
 
 Definition drv_lint (_ : nat) (d : ddoc) : list dlint := map fst (dd_lints d).
 Definition dlint_eqb (a b : dlint) : bool :=
@@ -307,11 +307,9 @@ Definition drv_ctx_key (foreign : list (nat * dlint * N)) (l : dlint) (d : ddoc)
       | None => 0%N
       end
   end.
-(* Document::get_token_at_char_index is a binary search over the token vector with a comparator that is only
-   sound on sorted, gap-free token vectors; it is NOT modelled: the harness tabulates it (every index at which
-   it returns a Url token, with that token's span) and the model looks the index up *)
-Definition drv_url_at (d : ddoc) (i : nat) : option span :=
-  match find (fun p => fst p =? i) (dd_urls d) with Some p => Some (snd p) | None => None end.
+(* Document::get_token_at_char_index: the binary search of Model/C08TokenAt.v run on the document's token
+   vector (phase 4; before, the harness tabulated the function) *)
+Definition drv_url_at (d : ddoc) (i : nat) : option span := url_token_at_vec (dd_tokens d) i.
 
 Definition drv_run (foreign : list (nat * dlint * N)) (d0 : ddoc) (h : list (op ddoc nat))
   : list answer :=
